@@ -110,12 +110,12 @@ PROPERTIES = {
     rule='generated typed model values (90 types: fundamentals, 4 string widths, enum, classes with base class / external serialization, chrono, every std container / optional / smart pointer / tuple / pair, nested) x 4 archives x {root, object member} x {memory, stringstream, short-read stream} x 5 encodings x BOM x pretty-print/padding x CSV separators; oracle = round trip (deep equality, floats bitwise) + load-save-load fixed point',
     assumptions=TRUSTED + ['values restricted to what the format can carry: XML 1.0 characters and Names, CSV = flat rows (no null/empty distinction for strings), JSON floats finite', 'BOM-less streams: no U+0000 in the text (detection is undecidable otherwise)',
                  'recorded findings KF-12, KF-13, KF-14, KF-34, KF-44 are excluded by construction and witnessed on every run'],
-    units=_c01_units('c01', 'roundtrip*', 3000, 60000) + [U('c01_kf', 'c01_kf.cpp', flavour='asan', libs=['-lpugixml'], quick=dict(cases=300, shards=1, min_eval=100), thorough=dict(cases=3000, shards=1, min_eval=100))]),
+    units=_c01_units('c01', 'roundtrip*', 12000, 120000) + [U('c01_kf', 'c01_kf.cpp', flavour='asan', libs=['-lpugixml'], quick=dict(cases=300, shards=1, min_eval=100), thorough=dict(cases=3000, shards=1, min_eval=100))]),
  'C18': dict(
     level='exploration', exhaustive_claim=False,
     rule='the same typed models: a document saved from value A is loaded into a target already holding an independent random value B of the same type (longer / shorter / empty / other keys / null / engaged), result must equal A; 4 archives, root and member positions, memory and streams; CSV rows into a populated vector',
     assumptions=TRUSTED + ['documents are complete for the element schema (an absent member legitimately keeps its old value, C03)', 'recorded findings KF-12, KF-13, KF-44 excluded and witnessed'],
-    units=_c01_units('c18', 'reload*', 2500, 50000) + [U('c18_maps', 'c18_map_modes.cpp', flavour='asan', libs=['-lpugixml'], quick=dict(cases=6000, shards=2, min_eval=1000), thorough=dict(cases=100000, shards=4, min_eval=10000)),
+    units=_c01_units('c18', 'reload*', 10000, 100000) + [U('c18_maps', 'c18_map_modes.cpp', flavour='asan', libs=['-lpugixml'], quick=dict(cases=6000, shards=2, min_eval=1000), thorough=dict(cases=100000, shards=4, min_eval=10000)),
            U('c01_kf', 'c01_kf.cpp', flavour='asan', libs=['-lpugixml'], args=['--prop', 'kf12*,kf13*,kf44*'], quick=dict(cases=200, shards=1, min_eval=50), thorough=dict(cases=2000, shards=1, min_eval=50))]),
 
  'C04': dict(
